@@ -26,7 +26,41 @@ LEVEL_TEXT = ('Proof (partial): Coq theorems that for every expression tree of t
 LEVEL_NOTE = 'Validity rests on node + the trusted printer; script-kind wrappers (function headers, class wrappers, factories), counting / list loops, exit repeat and the further expression families are covered by the token-for-token oracle and the model correspondence only.'
 TECHNIQUE = 'Coq proof by induction over the expression tree and over the program structure (emitter = printer of a JS syntax tree; translation invertible; structured layout) + node syntax check + model/implementation correspondence'
 
+def hardstr_scripts():
+    """string constants with the characters the JavaScript emitter has to escape: put <const> for each"""
+    body = [('call', 'put', [('str', t)]) for t in H.HARD_STRINGS]
+    h = {'name': 'hs', 'args': [], 'locals': [], 'body': body, 'method': False}
+    return [H.finish_script({'props': [], 'globals': [], 'factory': None, 'scr_num': 0, 'handlers': [h]})]
+
+_NODE_PUTS = r'''
+const src = require('fs').readFileSync(process.argv[2], 'utf8');
+function LingoString(s) { this.s = s; }
+const got = [];
+function put(x) { got.push(x instanceof LingoString ? x.s : null); }
+eval(src + "\nhs();");
+process.stdout.write(JSON.stringify(got));
+'''
+def js_put_values(js):
+    """run the emitted handler hs under node with a recording put(): the values of its string-object arguments"""
+    import subprocess, tempfile, os, json as _json
+    d = tempfile.mkdtemp(prefix='drxjs')
+    try:
+        with open(os.path.join(d, 'src.js'), 'w', encoding='latin-1') as f:
+            f.write(js)
+        with open(os.path.join(d, 'run.js'), 'w') as f:
+            f.write(_NODE_PUTS.replace("'utf8'", "'latin1'"))
+        p = subprocess.run(['node', os.path.join(d, 'run.js'), os.path.join(d, 'src.js')], stdout=subprocess.PIPE, stderr=subprocess.PIPE, timeout=60)
+        if p.returncode != 0:
+            return None, p.stderr.decode('utf-8', 'replace')[-300:]
+        return _json.loads(p.stdout.decode()), None
+    finally:
+        for fn in os.listdir(d):
+            os.remove(os.path.join(d, fn))
+        os.rmdir(d)
+
 def gen_cases(rng, tier):
+    for s in hardstr_scripts():
+        yield {'tag': 'hardstr', 'script': s}
     for s in H.pair_scripts(rng):
         yield {'tag': 'pairs', 'script': s}
     g = H.GenExt(rng)
@@ -81,6 +115,18 @@ def judge(c, ir, ms):
     if ir[0] != 'ok':
         return [('the decompiler raises on a compiled script: %s' % (ir[2] if len(ir) > 2 else ir[0]), 'property', None)]
     lingo, js = ir[1]
+    if c['tag'].startswith('hardstr'):
+        # string-object literals: the emitted handler is RUN under node and must hand put() the source strings
+        vals, err = js_put_values(js)
+        want = [st[2][0][1] for st in c['script']['handlers'][0]['body']]
+        if err is not None:
+            return [('emitted JavaScript does not run: %s' % err, 'property', None)]
+        if vals != want:
+            return [('string-object literals denote %r, the script has %r' % (vals, want), 'property', None)]
+        mt = H.text_pair(ms)
+        if ms is not None and (mt is None or mt[1] != js):
+            out.append(('JavaScript text differs from the model on string constants', 'correspondence', None))
+        return out
     if H.lingo_oracle(c['script'], lingo):
         return out            # the Lingo side is wrong already (C02 / C03 report it); nothing to compare the JavaScript with
     mt = H.text_pair(ms)
